@@ -736,6 +736,76 @@ def run(ctx):
     ctx.traces_validated += n_cls
     ctx.notes["from_pdu_classes"] = [k.__name__ for k in classes]
 
+    # 6. the observation point the property names: what the scan database stores as 'what the ECU sent' is the re-serialised form
+    #    of the typed object (DBHandler.insert_scan_result) - one real sqlite file, one row per sampled typed response
+    pool, seen = [], set()
+    for (label, b, _exp), mv in zip(inputs, model):
+        if _parse_view(mv)[0] == "ok":
+            key = (label, min(len(b), 40))
+            if key not in seen:
+                seen.add(key)
+                pool.append(b)
+    rng.shuffle(pool)
+    pool = sorted(pool[: ctx.pick(250, 1500)], key=len)
+    _stored_check(ctx, pool)
+
+
+def _stored_check(ctx, pdus):
+    import asyncio
+    import sqlite3
+    import tempfile
+    from datetime import UTC, datetime
+    from pathlib import Path
+
+    import gallia.command  # noqa: F401  (import order: gallia.db.handler alone hits a circular import)
+    from gallia.db.handler import DBHandler, LogMode
+
+    S = _svc()
+    typed = []
+    for b in pdus:
+        try:
+            r = S.UDSResponse.parse_dynamic(b)
+        except Exception:  # noqa: BLE001
+            continue
+        if type(r).__name__.startswith("Raw"):
+            continue
+        typed.append((b, r))
+
+    class _Cfg:
+        def model_dump_json(self):
+            return "{}"
+
+    async def go(dbp):
+        db = DBHandler(dbp)
+        await db.connect()
+        await db.insert_run_meta("verif-c02", _Cfg(), datetime.now(UTC).astimezone(), None)
+        await db.insert_scan_run("fake://c02")
+        now = datetime.now(UTC).astimezone()
+        for b, r in typed:
+            await db.insert_scan_result({"session": 1}, S.RawRequest(bytes([b[0] - 0x40 if b[0] != 0x7F else b[1]]) + b"\x00"), r, None, now, now, LogMode.implicit)
+        await db.disconnect()
+
+    with tempfile.TemporaryDirectory(prefix="verif-c02-") as td:
+        dbp = Path(td) / "c02.sqlite"
+        asyncio.run(go(dbp))
+        c = sqlite3.connect(dbp)
+        rows = [r[0] for r in c.execute("SELECT response_pdu FROM scan_result ORDER BY id")]
+        c.close()
+    ctx.kind(*(["stored-in-scan-db"] * len(typed)))
+    ctx.notes["stored_rows_checked"] = len(typed)
+    ctx.notes["stored_max_len"] = max((len(b) for b, _ in typed), default=0)
+    if len(rows) != len(typed):
+        ctx.disagree("stored:row-count", f"{len(typed)} typed responses handed to insert_scan_result, {len(rows)} rows stored", {"n": len(typed)},
+                     impl=len(rows), model=len(typed), spec_violated=True, site="DBHandler.insert_scan_result")
+        return
+    for (b, _r), stored in zip(typed, rows):
+        ctx.ev()
+        if stored != b.hex():
+            ctx.disagree(f"stored:response_pdu-differs:{'longer-than-10-bytes' if len(b) > 10 else 'short'}",
+                         f"received {hx(b)} ({len(b)} bytes) but scan_result.response_pdu = {stored!r}", {"pdu": hx(b)},
+                         impl=stored, model=b.hex(), spec_violated=True, site="DBHandler.insert_scan_result")
+            return
+
 
 def replay(ctx, case):
     load_rows()
